@@ -157,6 +157,17 @@ def run(tier, replay=None):
                 for mode in (0, 1):
                     sysc.append({"id": "y%d_%d" % (nst, mode), "extra": {"order": 0, "noscreen": mode}, "shells": sh_, "ecps": [u], "_sa": [0, 0, 1], "_ea": [0]})
                 nst += 1
+        # moved systems: the integrator is initialised at a stretched geometry (every shell/ECP pair beyond the screening radius, or
+        # compact) and moved to the geometry of the case with the update routines before computing: the screens must decide from
+        # the CURRENT coordinates (screens on, after the move) vs screens off
+        nmoved = 0
+        for k in range(6 if tier == "quick" else 40):
+            sh_, ec, sa_, ea_ = api_k.rand_system(rng, maxl, natoms=rng.randint(2, 3), nshells=rng.randint(2, 4), necps=rng.randint(1, 2))
+            stretch = rng.choice([25.0, 60.0, 0.5, 12.0])
+            for mode in (0, 1):
+                sysc.append({"id": "y%d_%d" % (nst, mode), "extra": {"order": 0, "noscreen": mode, "init_stretch": stretch}, "shells": sh_, "ecps": ec, "_sa": sa_, "_ea": ea_})
+            nst += 1; nmoved += 1
+        res.cov["systems_initialised_elsewhere_and_moved"] = nmoved
         mism, m = api_k.run_driver(sysc, tmp)
         mats = {}
         cur = None
